@@ -53,10 +53,12 @@ fn model_entry<'de, R: Reader<'de>>(
 #[kani::proof]
 #[kani::unwind(4)]
 #[kani::stub(crate::parser::Parser::parse_array_elem_lazy, model_array_elem)]
+#[kani::stub(crate::error::Error::syntax, crate::error::verif_kani_error::syntax_cut)]
 fn m_array_iter_latch() {
     let data = b"[1]";
+    let bad_utf8: bool = kani::any();
     let mut it = ArrayJsonIter {
-        parser: Parser::new(Read::new(&data[..], false)),
+        parser: Parser::new(crate::reader::verif_kani_reader::read_with_utf8_verdict(&data[..], if bad_utf8 { 1 } else { usize::MAX })),
         first: kani::any(),
         ending: kani::any(),
         skip_strict: kani::any(),
@@ -80,6 +82,7 @@ fn m_array_iter_latch() {
     kani::cover!(!was_ending && matches!(&a, Some(Err(_))));
     kani::cover!(!was_ending && a.is_none());
     kani::cover!(!terminal && matches!(&b, Some(Ok(_))));
+    kani::cover!(bad_utf8 && !was_ending && matches!(&a, Some(Err(_))));
     core::mem::forget(a);
     core::mem::forget(b);
     core::mem::forget(it);
@@ -88,10 +91,12 @@ fn m_array_iter_latch() {
 #[kani::proof]
 #[kani::unwind(4)]
 #[kani::stub(crate::parser::Parser::parse_entry_lazy, model_entry)]
+#[kani::stub(crate::error::Error::syntax, crate::error::verif_kani_error::syntax_cut)]
 fn m_object_iter_latch() {
     let data = b"{1}";
+    let bad_utf8: bool = kani::any();
     let mut it = ObjectJsonIter {
-        parser: Parser::new(Read::new(&data[..], false)),
+        parser: Parser::new(crate::reader::verif_kani_reader::read_with_utf8_verdict(&data[..], if bad_utf8 { 1 } else { usize::MAX })),
         strbuf: Vec::new(),
         first: kani::any(),
         ending: kani::any(),
@@ -116,6 +121,7 @@ fn m_object_iter_latch() {
     kani::cover!(!was_ending && matches!(&a, Some(Err(_))));
     kani::cover!(!was_ending && a.is_none());
     kani::cover!(!terminal && matches!(&b, Some(Ok(_))));
+    kani::cover!(bad_utf8 && !was_ending && matches!(&a, Some(Err(_))));
     core::mem::forget(a);
     core::mem::forget(b);
     core::mem::forget(it);
